@@ -122,11 +122,11 @@ impl<'de, R: Reader<'de>> Parser<R> {
                 &&& (want.is_none() && i + 4 <= s.len() && hex4_ok(s, i) ==> res.is_err())
                 &&& (res.is_ok() && want.is_none() ==> res.unwrap() > 0xffff)
             }),
-//@after /let low_bit = point2\.wrapping_sub\(0xdc00\);/
+//@after /let low_bit =/
             proof {
                 assert(((point2.wrapping_sub(0xdc00u32)) >> 10u32) == 0 <==> (0xdc00u32 <= point2 && point2 < 0xe000u32)) by (bit_vector);
             }
-//@before /Ok\(\(\(\(point1 - 0xd800\) << 10\) \| low_bit\)\.wrapping_add\(0x10000\)\)/
+//@before /^\s+Ok\(\(\(\(point1/
             proof {
                 assert(low_bit < 1024 ==> (((point1 - 0xd800) as u32) << 10u32 | low_bit) == ((point1 - 0xd800) as u32) * 1024 + low_bit) by (bit_vector)
                     requires point1 >= 0xd800, point1 < 0xdc00;
